@@ -313,6 +313,49 @@ def code_coverage(prop, workdir):
             "per_function_statement_pct": dict(sorted(funcs.items()))}
 
 
+# native Go fuzzing (thorough tier only): the fuzzer is an input source, the monitor inside the fuzz function decides
+FUZZ = {"C04": ("FuzzC04", 3000000), "C12": ("FuzzC12", 3000000)}
+
+
+def run_fuzz(prop, workdir, replay_dir):
+    """returns (stats dict, list of violation lines)"""
+    target, execs = FUZZ[prop]
+    execs = int(os.environ.get("VERIF_FUZZ_EXECS", execs))
+    cmd = ["go", "test", "-tags", "verif", "-run", "^$", "-fuzz", "^%s$" % target, "-fuzztime", "%dx" % execs]
+    altmod = os.path.join(workdir, "go.alt.mod")
+    if os.environ.get("VERIF_REPO_OVERRIDE") and os.path.exists(altmod):
+        cmd.append("-modfile=" + altmod)
+    cmd.append("./fuzz")
+    t0 = time.time()
+    try:
+        r = subprocess.run(cmd, cwd=HARNESS, env=GOENV, stdout=subprocess.PIPE, stderr=subprocess.STDOUT, text=True, timeout=3600)
+        out, rc = r.stdout, r.returncode
+    except subprocess.TimeoutExpired as e:
+        out, rc = (e.stdout or b"").decode(errors="replace") if isinstance(e.stdout, bytes) else (e.stdout or ""), "timeout"
+    stats = {"target": target, "requested_execs": execs, "wall_s": round(time.time() - t0, 1), "exit": rc,
+             "note": "coverage-guided; schedule not seed-reproducible; corpus cached under GOCACHE/fuzz persists between runs"}
+    m = re.findall(r"execs: (\d+) .*?new interesting: (\d+) \(total: (\d+)\)", out)
+    if m:
+        stats["execs"], stats["new_interesting"], stats["corpus_total"] = int(m[-1][0]), int(m[-1][1]), int(m[-1][2])
+    lines = []
+    tdir = os.path.join(HARNESS, "fuzz", "testdata")
+    if rc not in (0, "timeout"):
+        os.makedirs(replay_dir, exist_ok=True)
+        path = os.path.join(replay_dir, "fuzz-%s-%d.txt" % (target, int(t0)))
+        inputs = ""
+        for fpath in glob.glob(os.path.join(tdir, "fuzz", target, "*")):
+            with open(fpath, errors="replace") as fh:
+                inputs += "--- %s\n%s\n" % (os.path.basename(fpath), fh.read()[:200000])
+        with open(path, "w") as fh:
+            fh.write("go test -fuzz %s failed (exit %s)\n\n%s\n\nfailing input(s) in Go fuzz corpus format:\n%s" % (target, rc, out[-8000:], inputs))
+        cls = re.search(r"VIOLATION property=\S+ kind=(\S+) class=(.*?) detail=", out)
+        lines.append("VIOLATION property=%s replay=%s kind=fuzz-%s class=%s" % (prop, path, cls.group(1) if cls else "crash", (cls.group(2) if cls else "see file")[:160]))
+    elif rc == "timeout":
+        stats["note"] += "; timed out (inconclusive)"
+    shutil.rmtree(tdir, ignore_errors=True)  # crashers are kept in the replay file, not in the harness tree
+    return stats, lines
+
+
 def dedupe_reports(reports):
     seen, out = set(), []
     for r in reports:
@@ -468,6 +511,12 @@ def main():
         out_lines.append("VIOLATION property=%s replay=%s kind=sanitizer-report" % (prop, path))
         new_viol += 1
 
+    fuzz_stats = None
+    if prop in FUZZ and not replay and (tier == "thorough" or os.environ.get("VERIF_FUZZ_EXECS")):
+        fuzz_stats, flines = run_fuzz(prop, workdir, replay_dir)
+        out_lines += flines
+        new_viol += len(flines)
+
     for kid, (k, n) in known_hit.items():
         print("KNOWN-FINDING: property=%s %s (id=%s, %d witnesses this run)" % (prop, k["what"], kid, n))
     for k in known:
@@ -504,6 +553,7 @@ def main():
         "notes": notes,
         "info": info,
         "code_coverage_sample": code_coverage(prop, workdir),
+        "native_fuzzing": fuzz_stats,
         "repo_tree_hash": tree_hash(os.environ.get("VERIF_REPO_OVERRIDE") or REPO),
         "harness_tree_hash": tree_hash(HARNESS),
     }
